@@ -119,13 +119,24 @@ def frame_bytes(kind: str) -> bytes:
     if kind == "ABORT2":
         return pn.abort_pdu(2, 0).encode()
     if kind == "BADTYPE":
-        return b"\x09\x00\x00\x00\x00\x00"
+        # the model's "PDU that must be classified invalid" (Evt19): representatives taken in turn - an unknown PDU type, and
+        # well-framed PDUs of known types whose fields hold reserved values (they cannot be converted to a primitive)
+        global _bad_turn
+        _bad_turn += 1
+        return INVALID_PDUS[_bad_turn % len(INVALID_PDUS)]
     if kind == "UNDEC":
         return b"\x02\x00\x00\x00\x00\x04\xff\xff\xff\xff"
     raise MachineryError(f"unknown frame kind {kind}")
 
 
+INVALID_PDUS = (b"\x09\x00\x00\x00\x00\x00", bytes.fromhex("07000000000400000203"), bytes.fromhex("07000000000400000300"),
+                bytes.fromhex("03000000000400030101"))
+_bad_turn = -1
+
+
 def classify_pdu_bytes(b: bytes) -> str:
+    if bytes(b) in INVALID_PDUS:
+        return "BADTYPE"
     t = b[0]
     if t == 1:
         return "RQ" if b[7] & 1 and b[6] == 0 and b[7] == 1 else "RQBADPV"
